@@ -30,6 +30,7 @@ def run_case(ctx, idx, rng, tier):
     if own_var:  # a declared (still unused) variable: the sequence stays non-parametrized until a call *succeeds* with it
         r.step({"op": "declare_variable", "name": "cv", "dtype": "int"})
     g = gen.ProgGen(rng, dev, reg, r.chspecs, weights=WEIGHTS, styles=True)
+    g.motifs["slm-late"] = 0.5
     n = rng.randint(6, 30)
     k_inject = 6 if tier == "quick" else 10
     for i in range(n):
